@@ -276,7 +276,11 @@ def _real(p):
             obj.make_covariance_matrix()
         finally:
             sc.multiprocessing = saved
-        return ch, [od["completion"] for od in ch.orders]
+        # one record per pool (= per build); the builder maps layer after layer, so the chunk ids of layer l are
+        # l*n .. (l+1)*n-1 and complete before those of layer l+1: split into per-layer completion orders
+        n = len(chunks)
+        comp = ch.orders[0]["completion"] if ch.orders else []
+        return ch, [[q - l * n for q in comp if l * n <= q < (l + 1) * n] for l in range(nl)]
     runs, _ = sched.explore(run, bound=bound)
     tmp = tempfile.mkdtemp(prefix="c03_real_")
     validated = 0
@@ -441,6 +445,33 @@ def _selftest():
         for r in rs:
             r.get()
         return acc
+    def timeout_retry(pool, n):
+        import multiprocessing
+        waiting = [pool.apply_async(work, (i,)) for i in range(n)]
+        got = []
+        while waiting:
+            r = waiting.pop(0)
+            try:
+                got.append(r.get(timeout=0.5))
+            except multiprocessing.TimeoutError:
+                waiting.append(r)
+        return got
+
+    def polling(pool, n):
+        rs = [pool.apply_async(work, (i,)) for i in range(n)]
+        got = []
+        pending = list(range(n))
+        while pending:
+            for i in list(pending):
+                if rs[i].ready():
+                    got.append(rs[i].get())
+                    pending.remove(i)
+        return got
+    for coll in (timeout_retry, polling):
+        runs = harness(coll, 2)
+        outs = set(r[1] for r in runs)
+        o.check("selftest_timeout_and_polling_collectors_exposed", len(outs) > 1 and (0, 1, 4) in outs,
+                sub=coll.__name__, detail={"outcomes": sorted(outs), "schedules": len(runs)})
     for k, want in ((1, 1), (2, 4), (3, 6)):
         runs = harness(good, k)
         o.check("selftest_schedule_count", len(runs) == want, sub="k=%d" % k, detail=len(runs))
